@@ -515,6 +515,24 @@ theorem release_of_dead_lock_removes_it (s : Sys) (idx : Nat) (load : Option Val
   subst hpc
   cases canc <;> simp [gstep, gstepLive, gstepCancelled, delkey, hk]
 
+/-! ### 5c. every error exit of the lock holder gives the lock back -/
+
+/-- the lock holder leaves Get with an error in two ways: the loader failed (`releasing`), or the
+loader succeeded and the store of its value failed on the caller's side (`storing` with the
+context done). In both the step runs delkey: if the key still holds the holder's placeholder it is
+removed, and the Get is finished with the error. No live client keeps a lock it does not load for. -/
+theorem holder_error_exit_releases (s : Srv) (g : G) (load : Option Val)
+    (hpc : g.pc = .releasing ∨ (∃ v, g.pc = .storing v ∧ g.cancelled = true))
+    (hk : s.key = some (.ph g.id)) :
+    (gstep s g load).1.key = none ∧ (gstep s g load).2.pc = .done .err := by
+  obtain ⟨id, pc, wk, wi, canc⟩ := g
+  simp only at hpc hk
+  rcases hpc with h | ⟨v, h, hc⟩
+  · subst h
+    cases canc <;> simp [gstep, gstepLive, gstepCancelled, delkey, hk]
+  · subst h; subst hc
+    simp [gstep, gstepCancelled, delkey, hk]
+
 /-! ### 6. script facts and non-vacuity -/
 theorem acquire_iff_absent (id : Nat) (k : Option Val) : (acquire id k).2 = none ↔ k = none := by
   cases k <;> simp [acquire]
